@@ -7,3 +7,4 @@ pub mod peg;
 pub mod stack;
 pub mod sweep;
 pub mod util;
+pub mod linecol;
